@@ -2,6 +2,7 @@ package checks
 
 import (
 	"bytes"
+	"encoding/binary"
 	"errors"
 	"fmt"
 	"runtime"
@@ -197,9 +198,24 @@ func (ch c02) Run(c *core.Ctx) {
 				case 1:
 					rf = []int16{int16(rng.Intn(2))}
 				}
-				in = append(in, pg.Parse("s", id, nil)...)
+				// client-supplied text that may come back inside a server message (error texts echoing a value
+				// or a name): parameter values with invalid UTF-8, NUL bytes, control bytes; prespecified types
+				var params [][]byte
+				var pf []int16
+				var oids []uint32
+				if rng.Intn(3) == 0 {
+					for k := 1 + rng.Intn(3); k > 0; k-- {
+						params = append(params, core.Pick(rng, [][]byte{[]byte("abc\xff\x00"), []byte("\xfe\x00\x00x"), []byte("\x00"), []byte("caf\xe9"), []byte("plain"), nil, {}, rng.Bytes(1 + rng.Intn(40)), []byte(strings.Repeat("\xff", 40) + "\x00tail")}))
+					}
+					pf = [][]int16{nil, {0}, {1}}[rng.Intn(3)]
+					for k := rng.Intn(6); k > 0; k-- {
+						oids = append(oids, core.Pick(rng, []uint32{0, 23, 25, 1043, 705, 99999}))
+					}
+					c.Count("binds_with_hostile_text_parameters", 1)
+				}
+				in = append(in, pg.Parse("s", id, oids)...)
 				in = append(in, pg.Describe('S', "s")...)
-				in = append(in, pg.Bind("", "s", nil, nil, rf)...)
+				in = append(in, pg.Bind("", "s", pf, params, rf)...)
 				in = append(in, pg.Describe('P', "")...)
 				in = append(in, pg.Execute("", 0)...)
 				if !hasCopy {
@@ -280,8 +296,12 @@ func (ch c02) Run(c *core.Ctx) {
 		c.Count("hostile_inputs", 1)
 		c.Eval("hostile "+shape, true)
 		what := "hostile input " + shape
-		if len(stream) >= 8 && bytes.Equal(stream[:8], pg.SSLRequest()) {
-			what += " ssl"
+		if len(stream) >= 8 {
+			// a first packet carrying the SSLRequest / GSSENCRequest code (of whatever declared length) is
+			// answered with the single byte N or S, which is not a backend message
+			if code := binary.BigEndian.Uint32(stream[4:8]); code == pg.VerSSL || code == pg.VerGSSENC {
+				what += " ssl"
+			}
 		}
 		strict(conn, what, map[string]any{"mutation": shape, "stream": hexs(stream)})
 	}
